@@ -1,1 +1,17 @@
-fn main() { eprintln!("not implemented"); std::process::exit(2); }
+//! p-tsig: bounded-exhaustive checks for the TSIG properties.
+//!   C10 — TSIG-signed requests are authenticated before being answered (server level)
+//!   C11 — TSIG MACs match RFC 8945 and detect tampering (library level)
+//! Usage: p-tsig <C10|C11> <quick|thorough> [--replay FILE]
+
+mod c10;
+mod c11;
+mod refmodel;
+
+fn main() {
+    let ctx = qvlib::Ctx::from_args(&["C10", "C11"]);
+    match ctx.id.as_str() {
+        "C10" => c10::run(ctx),
+        "C11" => c11::run(ctx),
+        _ => unreachable!(),
+    }
+}
